@@ -15,7 +15,7 @@ import os
 import vlib
 import vknown
 
-ALL_DEVS = ["EnchAlways5", "QueueDropsEnh", "TempOverride", "Mangle128"]
+ALL_DEVS = ["EnchAlways5", "QueueDropsEnh", "TempOverride", "Mangle128", "UnspecRealign", "PipelineRejectEnh"]
 
 MC_CFG = """SPECIFICATION Spec
 CONSTANTS
@@ -60,6 +60,7 @@ def run(ctx, replay):
         raise vlib.Infra("known_findings.d/C16.json names deviations Errors.tla does not have: %s" % unknown)
 
     lit_only = None
+    comps = []
     if replay:
         obj = json.load(open(replay))
         cases = []
@@ -68,15 +69,22 @@ def run(ctx, replay):
             c["id"] = 1
             cases = [c]
         lit_only = obj.get("lit")
+        if obj.get("comp"):
+            comps = [dict(obj["comp"], id=200000)]
     else:
         # ---- (T) the design satisfies the property on every term ------------
         r = ctx.tlc_expect_ok("Errors", None, name="mc", workers=16, timeout=900,
                               cfg_text=MC_CFG % dict(devs="", depth=4, gen="TRUE",
-                                                     inv="Coherent HelpersCoherent Emit"))
+                                                     inv="Coherent HelpersCoherent Emit EmitComp"))
         ctx.cov["states"] = r["distinct"]
         ctx.cov["transitions"] = r["generated"]
         ctx.cov["model_depth"] = r["depth"]
         terms = [val for tag, val in r["printed"] if tag == "ROW"]
+        for tag, val in r["printed"]:
+            if tag == "COMP":
+                comps = [{"id": 200000 + i, "site": c["site"], "in": c["in"]} for i, c in enumerate(val)]
+        if not comps:
+            raise vlib.Infra("TLC printed no COMP line (computed replies)")
         if len(terms) != r["distinct"]:
             raise vlib.Infra("TLC printed %d rows for %d states" % (len(terms), r["distinct"]))
         ctx.log("TLC exhaustive: %d terms (states), depth %d, %.1fs" % (r["distinct"], r["depth"], r["wall"]))
@@ -120,7 +128,10 @@ def run(ctx, replay):
         if lit_only:
             lits = [e for e in lits if e["file"] == lit_only.get("file")]
         events += lits
+    if comps:
+        events += ctx.run_shards(binary, comps, test="TestComp", name="comp", shards=1)
     by_case = {c["id"]: c for c in cases}
+    comp_by_id = {c["id"]: c for c in comps}
 
     # binding self-test: a recorded row with one flipped code class / a leaked text
     selftest = {}
@@ -143,6 +154,7 @@ def run(ctx, replay):
     ok = drift = 0
     preds = {}
     lit_rows = lit_viol = 0
+    comp_rows = comp_viol = 0
     # literal rows first: the driver keeps artefacts for the first few violations only
     for t, recs in sorted(verdicts.items(), key=lambda kv: (kv[0] < 1000000, kv[0])):
         rec = recs[0]
@@ -158,6 +170,8 @@ def run(ctx, replay):
             continue
         if ev["e"] == "Lit":
             lit_rows += 1
+        if ev["e"] == "Comp":
+            comp_rows += 1
         if not viol:
             if rec["drift"]:
                 drift += 1
@@ -188,6 +202,14 @@ def run(ctx, replay):
             for d in devs:
                 ctx.known(open_devs[d]["id"], open_devs[d]["what"])
             continue
+        if ev["e"] == "Comp":
+            comp_viol += 1
+            c = comp_by_id[ev["case"]]
+            ctx.violation("computed reply incoherent: %s %s -> %s %s temporary=%s" % (
+                ev["site"], json.dumps(ev["in"]), ev["out"]["code"], ev["out"]["enh"], ev["out"]["temp"]),
+                {"property": "C16", "comp": {"site": c["site"], "in": c["in"]}, "row": ev,
+                 "violated": viol, "how": "bin/check C16 --replay <this file>"})
+            continue
         case = by_case.get(t, {"term": ev["in"]["t"], "att": ev["out"]["att"]["ran"]})
         ctx.violation("error term %s violates %s" % (json.dumps(ev["in"]["t"]), ",".join(viol)),
                       {"property": "C16", "case": {"term": case["term"], "att": case.get("att", True)},
@@ -198,7 +220,10 @@ def run(ctx, replay):
     n_terms = len(cases)
     ctx.cov["traces_validated_against_impl"] = ok
     ctx.cov["drift_traces"] = drift
-    ctx.cov["evaluations"] = n_terms + lit_rows
+    ctx.cov["evaluations"] = n_terms + lit_rows + comp_rows
+    ctx.cov["computed_reply_rows"] = comp_rows
+    ctx.cov["computed_reply_rows_violating"] = comp_viol
+    ctx.cov["computed_reply_sites"] = sorted(set(c["site"] for c in comps))
     ctx.cov["distinct_nontrivial"] = sum(1 for c in cases if nontrivial(c["term"]))
     ctx.cov["terms_replayed"] = n_terms
     ctx.cov["queue_attempts"] = sum(1 for e in events if e["e"] == "Row" and e["out"]["att"]["ran"] and e["t"] < 900000)
@@ -218,13 +243,20 @@ def run(ctx, replay):
         ctx.cov["samples"].append({"term": e["in"]["t"], "recorded": e["out"], "verdict": verdicts[e["t"]][0]})
     for e in [e for e in events if e["e"] == "Lit" and e["kind"] == "helper"][:1]:
         ctx.cov["samples"].append({"literal": e, "verdict": verdicts[e["t"]][0]})
+    for e in [e for e in events if e["e"] == "Comp" and e["site"] == "dmarc-reject"][-1:]:
+        ctx.cov["samples"].append({"computed": e, "verdict": verdicts[e["t"]][0]})
     ctx.assumptions += [
         "texts are compared as code point sequences; internal texts are the markers the harness plants "
         "(kaboom, dnsfail, ns.internal, f1eldsecret, ctx9wrap)",
         "unclassified errors (no Temporary method) may be answered 4yz or 5yz by the endpoint (DESIGN 2.5); "
         "the deadline rule (451 4.4.5) is its own case",
         "a literal whose Code is not a constant but whose EnhancedCode is, is evaluated for a 4yz and a 5yz code",
-        "literals with non-constant Code and EnhancedCode are counted (scan_sites_dynamic), not decided",
+        "literals with non-constant Code and EnhancedCode are not decided statically: their code paths are driven "
+        "(rows Comp: DMARC reject in the real pipeline, both reject directive parsers, fail_action override, milter "
+        "reply code, smtpconn's conversion of a peer's reply incl. the 552->452 rewrite); the LMTP per-recipient "
+        "status of target/smtp only copies the peer's reply and is not driven",
+        "a reject directive whose operator-given basic and enhanced code disagree is the operator's choice and not "
+        "in the input space; peers' replies fed to smtpconn are coherent or lack an enhanced code",
         "TLC 1.8.0, CommunityModules Json",
     ]
 
